@@ -102,6 +102,13 @@ def check(chk):
         chk.ob("PAIR-21", "the window is entered only when one is configured", cfg.guards_at(n.id).get("self.config['multiple_hit_window']") is True,
                f.where(n.ast), construct=f.ident, text="window guard")
     wname = None
+    for n, c in arm + [(x, None) for x in ent]:
+        # the window is opened by an *accepted* hit only: a hit that is ignored must not restart it (a steady stream of hits spaced
+        # closer than the window would otherwise keep it closed for ever)
+        g = cfg.guards_at(n.id)
+        ok = g.get("self.ignore_hits") is False
+        chk.ob("PAIR-21", "the hit window is (re)started only by an accepted hit, never by an ignored one", ok, f.where(n.ast), detail="guards %s" % sorted(g.items()),
+               construct=f.ident, text="window restarted by ignored hits")
     for n, c in arm:
         ms = kwarg(c, "ms")
         d = units.dim(ms, f, units.env_for(f))
@@ -277,6 +284,7 @@ def battery():
         # twins
         M("twin: early return inside window", LB, "        if not self.ignore_hits:\n            self.value += self.hit_value", "        if self.ignore_hits:\n            return\n        if not self.ignore_hits:\n            self.value += self.hit_value", None),
         M("twin: log text", LB, "        self.debug_log(\"Complete\")", "        self.debug_log(\"Completed\")", None),
+        M("hit window restarted by ignored hits", LB, "            if self.config['multiple_hit_window']:\n                self.debug_log(\"Beginning Ignore Hits\")\n                self.ignore_hits = True\n                self.delay.add(name='ignore_hits_within_window',\n                               ms=self.config['multiple_hit_window'],\n                               callback=self.stop_ignoring_hits)", "        if self.config['multiple_hit_window']:\n            self.debug_log(\"Beginning Ignore Hits\")\n            self.ignore_hits = True\n            self.delay.add(name='ignore_hits_within_window',\n                           ms=self.config['multiple_hit_window'],\n                           callback=self.stop_ignoring_hits)", "PAIR-21"),
     ]
 
 
